@@ -622,6 +622,44 @@ def r06_19(chk):
     chk.floor("R06.19", 1, "get_parser")
 
 
+def r06_20(chk):
+    chk.rule("R06.20", "bytes and line FASTA parsers agree on what precedes the first record: splitting the data on b'\\n>' leaves, as piece 0, whatever stands before the first label; it is a record only if it starts with '>' -- a piece 0 that is blank (a file beginning with empty lines) is dropped, as the line parser drops blank lines, instead of being yielded as the record ('', '')")
+    m = chk.repo.module("parse/fasta.py")
+    fns = [f for f in m.tree.body if isinstance(f, ast.FunctionDef) and f.name == "_" and any("iter_fasta_records.register" in norm(d) for d in f.decorator_list) and f.args.args and f.args.args[0].annotation is not None and norm(f.args.args[0].annotation) == "bytes"]
+    if not fns:
+        raise AnalysisError("iter_fasta_records bytes overload not found")
+    fn = fns[0]
+    splits = [st for st in walk_no_nested(fn) if isinstance(st, ast.Assign) and isinstance(st.value, ast.Call) and isinstance(st.value.func, ast.Attribute) and st.value.func.attr == "split" and st.value.args and isinstance(st.value.args[0], ast.Constant) and st.value.args[0].value == b"\n>"]
+    if not splits:
+        chk.ok("R06.20", key(m, "iter_fasta_records[bytes]", "blank preface is not a record"), m.loc(fn), "records are not obtained by splitting on the label marker", nontrivial=False)
+        chk.floor("R06.20", 0, "")
+        return
+    rv = splits[0].targets[0].id
+    handled = False
+    for i in walk_no_nested(fn):
+        if not isinstance(i, ast.If):
+            continue
+        chain = [i]
+        while chain[-1].orelse and len(chain[-1].orelse) == 1 and isinstance(chain[-1].orelse[0], ast.If):
+            chain.append(chain[-1].orelse[0])
+        if not any(f"{rv}[0].startswith(b'>')" in norm(c.test) for c in chain):
+            continue
+        for c in chain:
+            t = norm(c.test)
+            drops = any(isinstance(st, ast.Assign) and norm(st.targets[0]) == rv and isinstance(st.value, ast.Subscript) for st in c.body) or any(isinstance(st, (ast.Delete,)) for st in c.body) or any(isinstance(st, ast.Expr) and isinstance(st.value, ast.Call) and norm(st.value.func) == f"{rv}.pop" for st in c.body)
+            if drops and ("strip()" in t or "isspace()" in t or t.startswith("not ")):
+                handled = True
+        if chain[-1].orelse and any(isinstance(st, ast.Assign) and norm(st.targets[0]) == rv for st in chain[-1].orelse):
+            handled = True
+    # or: the record loop skips blank pieces
+    for lp in [x for x in walk_no_nested(fn) if isinstance(x, ast.For)]:
+        for iff in [x for x in lp.body if isinstance(x, ast.If)]:
+            if any(isinstance(st, ast.Continue) for st in iff.body) and ("strip()" in norm(iff.test) or "isspace()" in norm(iff.test)):
+                handled = True
+    chk.decide(handled, "R06.20", key(m, "iter_fasta_records[bytes]", "blank preface is not a record"), m.loc(splits[0]), "a blank piece before the first label is dropped", f"piece 0 of `{norm(splits[0].value)}` is processed like every other piece: for data starting with blank lines it is b'\\n', which is yielded as the record ('', '') -- the line-based parser yields no such record")
+    chk.floor("R06.20", 1, "bytes FASTA parser")
+
+
 def r06_9(chk):
     chk.rule("R06.9", "GenBank bytes parser: records are split on the line-anchored terminator b'\\n//'; because that separator begins with the newline of the previous line, every later piece starts with a newline -- the piece is left-trimmed before its first line (LOCUS) is taken, and the guard that skips the piece after the last terminator also covers the empty piece (`not piece`, not just piece.isspace())")
     from ..cfg import build
@@ -710,6 +748,7 @@ def r06_11(chk):
 
 
 def run(chk):
+    r06_20(chk)
     r06_19(chk)
     r06_18(chk)
     r06_17(chk)
